@@ -190,6 +190,14 @@ def gen_value_forest(rng):
             want = sext(raw, SIZES[form]) if sg else raw
             expect[id(nxt)] = [("const_value", ("cooked-sint" if sg else "cooked-uint", want))]
             cur = nxt
+    # --- attributes of the location class holding one expression: a block in DWARF 2/3 (decoded by attribute name), exprloc from DWARF 4 on
+    for _ in range(rng.randint(2, 6)):
+        at = rng.choice(["location", "frame_base", "data_member_location", "data_location", "return_addr", "static_link", "use_location",
+                         "vtable_elem_location", "string_length", "segment"])
+        form = "exprloc" if version >= 4 else rng.choice(["block1", "block1", "block2", "block"])
+        ops = rng.choice([[("constu", rng.randint(0, 300))], [("breg7", rng.choice([0, -8, 64])), ("deref",)], [("plus_uconst", rng.randint(0, 200))], [("lit0",), ("lit5",), ("plus",)]])
+        d = Die(rng.choice(["variable", "subprogram", "member"]), [("name", "string", b"lc"), (at, form, ops)])
+        add(d, [(at, ("loc", [dwgen.DW_OP[o[0]] for o in ops]))])
     # --- DW_AT_ranges: a list in .debug_ranges (DWARF 2-4), offsets relative to the unit's low_pc until a base-address entry
     ranges_blob = bytearray()
     if version <= 4:
@@ -304,6 +312,11 @@ def value_ok(exp, vals, hdr, stderr):
         return "" if v["t"] == "die" and v["o"] == exp[1].offset else "reference does not yield the target DIE"
     if k == "block":
         return "" if v["t"] == "q" and [int(x["v"]) for x in v["v"]] == list(exp[1]) and all(x["d"] == "hex" for x in v["v"]) else "block differs"
+    if k == "loc":
+        if v["t"] != "lle":
+            return "expected a location expression, got a value of type %s (%s)" % (v["t"], v.get("sh", "")[:60])
+        got = [o[0] for o in v["ops"]]
+        return "" if got == list(exp[1]) else "operations differ (got %s)" % got
     if k == "aset":
         if v["t"] != "as":
             return "expected an address set"
